@@ -32,17 +32,17 @@ UNITS = {
                    "fn_props": {**PRELUDE_FNS, "int_13|store_input_line": ["C18", "C09"]}},
     "lemmas": {"tpl": "lemmas.rs", "props": ["C05", "C07", "C12"],
                "fn_props": {**PRELUDE_FNS, "lemma_rep.*": ["C07"], "lemma_push.*|lemma_sp_casts|bridge_p.*": ["C05"], "lemma_contiguous|lemma_len": ["C12"]}},
-    "transfer": {"tpl": "transfer.rs", "props": ["C08", "C14", "C04", "C12", "C18", "C09"],
-                 "fn_props": {**PRELUDE_FNS, "it_call|it_ret": ["C08", "C14", "C09"], "lemma_nested.*|lemma_ret_resumes.*|bridge_.*": ["C08"], "it_jumps_loops": ["C08", "C14", "C09"],
-                              "it_int": ["C14", "C18", "C09"], "it_byte_label|it_word_label": ["C04", "C12", "C14", "C09"], "get_type": ["C08", "C14"]}},
-    "assembler": {"tpl": "assembler.rs", "props": ["C08", "C12", "C14", "C16", "C18", "C01", "C02", "C03", "C04", "C05", "C06", "C07", "C11", "C17", "C19", "C13"],
+    "transfer": {"tpl": "transfer.rs", "props": ["C08", "C14", "C04", "C12", "C18", "C09", "C10"],
+                 "fn_props": {**PRELUDE_FNS, "it_call|it_ret": ["C08", "C14", "C09", "C10"], "lemma_nested.*|lemma_ret_resumes.*|bridge_.*": ["C08"], "it_jumps_loops": ["C08", "C14", "C09", "C10"],
+                              "it_int": ["C14", "C18", "C09", "C10"], "it_byte_label|it_word_label": ["C04", "C12", "C14", "C09", "C10"], "get_type": ["C08", "C14"]}},
+    "assembler": {"tpl": "assembler.rs", "props": ["C08", "C12", "C14", "C16", "C18", "C01", "C02", "C03", "C04", "C05", "C06", "C07", "C11", "C17", "C19", "C13", "C10"],
                   "assumes": ["unit assembler: ASSUMED contract of the nested PreprocessorParser::parse inside macro_use = the contract of macro_use itself one nesting level down (freeze/release balanced, an enclosing use keeps its position, expansion set restored, macro table unchanged, code only appended): induction on the nesting depth; that depth is bounded (termination) is not proved",
                               "unit assembler: assumed of the nested parse: an UnrecognizedToken error with an empty token text (a diagnostic built by the error! macro) carries at least its one message (macro_use indexes expected[0] in that case)",
                               "unit assembler: rewrite R15 (String::replace -> uninterpreted text): which text is expanded is not modelled (C13 not claimed); R8 on field paths (token.1 == \"\")",
                               "unit assembler: assumed: a &str query / removal on HashSet<String> acts on the String with the same characters (two axioms, as for HashMap)"],
-                  "fn_props": {**PRELUDE_FNS, "em_\\d+": ["C08", "C16"], "as_proc_def|as_call|as_jmps_loops|as_label": ["C08", "C14"],
-                               "as_procedure": ["C08", "C16"], "as_mem_.*": ["C04", "C11"], "as_string_.*": ["C07", "C11"], "as_macro_use": ["C16", "C14", "C19", "C13"], "as_print_mem_len": ["C17", "C14", "C11"], "glue_em_\\d+": ["C14"], "as_int": ["C14", "C18"], "as_offset": ["C12", "C14"],
-                               "as_byte_label|as_word_label|as_unsupported|as_offset_as_byte": ["C14"], "as_d[bw]_.*|as_set|advance_data_counter": ["C12", "C14"], "add_entry": ["C16"], "new|get_type": ["C08", "C14"]}},
+                  "fn_props": {**PRELUDE_FNS, "em_\\d+": ["C08", "C16"], "as_call|as_jmps_loops": ["C08", "C14", "C10"], "as_proc_def|as_label": ["C08", "C14"],
+                               "as_procedure": ["C08", "C16"], "as_mem_.*": ["C04", "C11"], "as_string_.*": ["C07", "C11"], "as_macro_use": ["C16", "C14", "C19", "C13"], "as_print_mem_len": ["C17", "C14", "C11"], "glue_em_\\d+": ["C14"], "as_int": ["C14", "C18", "C10"], "as_offset": ["C12", "C14"],
+                               "as_byte_label|as_word_label": ["C14", "C10"], "as_unsupported|as_offset_as_byte": ["C14"], "as_d[bw]_.*|as_set|advance_data_counter": ["C12", "C14"], "add_entry": ["C16"], "new|get_type": ["C08", "C14"]}},
     "driver": {"tpl": "driver.rs", "rlimit": 200, "props": ["C07", "C08", "C12", "C14", "C16", "C17", "C18", "C19", "C20", "C09"],
                "fn_props": {**PRELUDE_FNS, "run": ["C08", "C09"], "user_interface": ["C20", "C09"], "note_prompt": ["C20"], "note_lookup|note_cite": ["C16", "C20"], "lemma_least_undefined": ["C19", "C14"],
                             "get_type|get_source_map": ["C08", "C14"]},
@@ -290,7 +290,7 @@ def emitted_text_spec(p, a):
         if j:
             units.append(("L", ","))
         units += g
-    return units, props + ["C11"]
+    return units, props + ["C11", "C10"]
 
 
 def xchg_swapped(p, units):
